@@ -385,6 +385,30 @@ func factsC11() {
 		}
 	}
 	emitList("headerInitLastNameConds", "pkg/block/indexheader/binary_reader.go init: the tests on the previous table entry", last)
+	// how postingsOffset gets past key count and label name of an entry
+	emitList("skipNAndNameStmts", "pkg/block/indexheader/binary_reader.go skipNAndName, statement by statement", flatStmts(body(fn(f, "", "skipNAndName"))))
+	var bufUse []string
+	ast.Inspect(body(fn(f, "BinaryReader", "postingsOffset")), func(n ast.Node) bool {
+		switch x := n.(type) {
+		case *ast.AssignStmt:
+			if len(x.Lhs) == 1 && text(x.Lhs[0]) == "buf" {
+				bufUse = append(bufUse, text(x))
+			}
+		case *ast.IncDecStmt:
+			if text(x.X) == "buf" {
+				bufUse = append(bufUse, text(x))
+			}
+		case *ast.CallExpr:
+			for _, a := range x.Args {
+				if strings.Contains(text(a), "buf") && callName(x) != "append" {
+					bufUse = append(bufUse, text(x))
+					break
+				}
+			}
+		}
+		return true
+	})
+	emitList("postingsOffsetBufInit", "pkg/block/indexheader/binary_reader.go postingsOffset: every assignment to and use of the skip length buf", bufUse)
 	emitList("lookupSymbolStmts", "pkg/block/indexheader/binary_reader.go LookupSymbol, statement by statement", flatStmts(body(fn(f, "BinaryReader", "LookupSymbol"))))
 	emitList("labelNamesStmts", "pkg/block/indexheader/binary_reader.go LabelNames, statement by statement", flatStmts(body(fn(f, "BinaryReader", "LabelNames"))))
 }
